@@ -188,6 +188,12 @@ fn gen_content(rng: &mut Rng, max: usize) -> Content {
 }
 
 fn gen_bits(rng: &mut Rng, max_bits: usize) -> Content {
+    // Directed: vectors long and sparse (or dense) enough for "long" select superblocks, down to a single value.
+    if max_bits >= 8000 && rng.chance(1, 60) {
+        let len = rng.range_usize(83_521, 200_000);
+        let pat = *rng.pick(&[Pat::Single, Pat::AllButOne, Pat::Ends, Pat::Density(1), Pat::Density(999)]);
+        return Content { len, pat, salt: rng.next() & 0xFFFF_FFFF };
+    }
     let len = gen_len(rng, max_bits);
     let mut c = Content::generate(rng, len);
     if rng.chance(1, 3) {
